@@ -342,3 +342,56 @@ def conj_(*gs):
     for g in reversed(gs[:-1]):
         r = and_(g, r)
     return r
+
+
+# ---------------------------------------------------------------- programs above the "small case" sizes
+def scale_scenarios():
+    """sizes that small enumerated cases never reach: long lists, deep terms, many clauses, many facts,
+    many answers, high arity, big integers, long names, many variables in one clause"""
+    X, Y, Z = V(0), V(1), V(2)
+
+    def s(n):
+        t = A("z")
+        for _ in range(n):
+            t = C("s", t)
+        return t
+    app = [clause(C("app", NIL, V(0), V(0))),
+           clause(C("app", lst([V(0)], V(1)), V(2), lst([V(0)], V(3))), call(C("app", V(1), V(2), V(3))))]
+    mem = [clause(C("member", V(0), lst([V(0)], V(900)))), clause(C("member", V(0), lst([V(900)], V(1))), call(C("member", V(0), V(1))))]
+    down = [clause(C("down", A("z"))), clause(C("down", C("s", V(0))), call(C("down", V(0))))]
+    length = [clause(C("len", NIL, A("z"))), clause(C("len", lst([V(900)], V(0)), C("s", V(1))), call(C("len", V(0), V(1))))]
+    many = [clause(C("many", I(i), A("v%d" % (i % 7)))) for i in range(120)]
+    clauses40 = [clause(C("c40", I(i), X), call(C("=", X, C("r", I(i), I(i * i))))) for i in range(45)]
+    wide = [clause(C("wide12", *[V(i) for i in range(12)]), conj_(*[call(C("=", V(i), I(i))) for i in range(0, 12, 2)])),
+            clause(C("wide12", *[A("k%d" % i) for i in range(12)]))]
+    bigs = [2 ** 31 - 1, 2 ** 31, 2 ** 32, 2 ** 63 - 1, 2 ** 63, 2 ** 64, 10 ** 30, 255, 256, 65535, 65536]
+    ints = [clause(C("big", I(b))) for b in bigs] + [clause(C("bigeq", X), call(C("=", X, I(2 ** 64 + 1))))]
+    longname = "a" + "x" * 400
+    names = [clause(C("name", A(longname))), clause(C("name", A("q " * 200))), clause(C(longname, A("ok")))]
+    manyvars = [clause(C("mv", V(0)), conj_(*([call(C("=", V(i), C("f", V(i + 1)))) for i in range(16)] + [call(C("=", V(16), A("end")))])))]
+    script = {"app/3": app, "member/2": mem, "down/1": down, "len/2": length, "many/2": many, "c40/2": clauses40, "wide12/12": wide,
+              "big/1": ints[:-1], "bigeq/1": ints[-1:], "name/1": names[:2], longname + "/1": names[2:], "mv/1": manyvars}
+    L40 = lst([I(i) for i in range(40)])
+    qs = [(C("app", V(0), V(1), lst([A("e%d" % i) for i in range(25)])), 2, 0), (C("app", lst([I(i) for i in range(30)]), lst([A("t")]), V(0)), 1, 0),
+          (C("member", V(0), L40), 1, 0), (C("member", I(39), L40), 0, 0), (C("down", s(70)), 0, 0), (C("len", L40, V(0)), 1, 0),
+          (C("len", V(0), s(20)), 1, 1), (C("many", V(0), V(1)), 2, 0), (C("many", V(0), A("v3")), 1, 0), (C("many", I(119), V(0)), 1, 0),
+          (C("c40", V(0), V(1)), 2, 0), (C("c40", I(44), V(0)), 1, 0), (C("wide12", *[V(i) for i in range(12)]), 12, 0),
+          (C("wide12", *([A("k0")] + [V(i) for i in range(11)])), 11, 0), (C("big", V(0)), 1, 0), (C("big", I(2 ** 63)), 0, 0), (C("big", I(2 ** 63 + 1)), 0, 0),
+          (C("bigeq", V(0)), 1, 0), (C("=", V(0), I(10 ** 40)), 1, 0), (C("name", V(0)), 1, 0), (C(longname, V(0)), 1, 0), (C("mv", V(0)), 1, 0),
+          (C("=", lst([V(i) for i in range(30)]), lst([I(i) for i in range(30)])), 30, 0),
+          (C("=", C("w", *[V(i % 5) for i in range(25)]), C("w", *[I(i % 5) for i in range(25)])), 5, 0),
+          (C("=", s(60), s(60)), 0, 0), (C("\\=", s(60), s(61)), 0, 0), (C("findall", V(0), C("many", V(0), V(1)), V(2)), 3, 0)]
+    scns = []
+    for g, qnv, k in qs:
+        scns.append({"scripts": {"P": script}, "steps": [[{"op": "load", "e": 1, "script": "P", "ow": True}],
+                                                      [{"op": "solve", "e": 1, "r": 1, "goal": g, "qnv": qnv, "k": k}]], "keys": []})
+    # the dynamic database at scale: 150 facts, interleaved retracts
+    steps = []
+    for i in range(150):
+        steps.append([{"op": "assert", "e": 1, "term": C("dd", I(i), A("t%d" % (i % 3))), "atEnd": i % 4 != 0, "r": 0}])
+    steps.append([{"op": "solve", "e": 1, "r": 1, "goal": C("dd", V(0), A("t1")), "qnv": 1, "k": 0}])
+    steps.append([{"op": "solve", "e": 1, "r": 2, "goal": C("retract", C("dd", V(0), A("t2"))), "qnv": 1, "k": 20}])
+    steps.append([{"op": "solve", "e": 1, "r": 3, "goal": C("retractall", C("dd", V(0), A("t0"))), "qnv": 1, "k": 0}])
+    steps.append([{"op": "solve", "e": 1, "r": 4, "goal": C("dd", V(0), V(1)), "qnv": 2, "k": 0}])
+    scns.append({"scripts": {}, "steps": steps, "keys": [{"n": "dd", "k": 2}]})
+    return scns
